@@ -449,5 +449,10 @@ func runC04(c *Ctx) {
 			s.Violate("C04|session-id-issued|"+mode+"|any", "c%d %s answered with Mcp-Session-Id in a mode that has no sessions", conn.ID, conn.Method)
 		}
 	}
+	for _, e := range s.LibEvents() {
+		if strings.Contains(e, "response truncated") {
+			s.Violate("C04|stream-not-ended-in-order", "a stream the server itself ends (replaced, session deleted) must end like any response, not like a broken connection: %s", e)
+		}
+	}
 	s.Probe("c04.mode." + mode)
 }
